@@ -42,6 +42,9 @@ pub fn tid() -> u64 {
 /// sequence order and the order in which threads passed this point agree
 pub fn rec(mut v: Value) {
     let out = OUT.get().expect("trace output not opened");
+    // a coroutine preempted by SIGURG while it holds the writer lock would block every other thread,
+    // its own scheduler included: drivers that enable preemption keep the signal out of this section
+    let _mask = SigurgBlocked::enter();
     let mut g = out.lock().unwrap_or_else(|e| e.into_inner());
     if let Value::Object(m) = &mut v {
         m.insert("seq".into(), json!(SEQ.fetch_add(1, Ordering::SeqCst)));
@@ -57,6 +60,40 @@ pub fn rec(mut v: Value) {
 }
 
 static AUTOFLUSH: AtomicBool = AtomicBool::new(false);
+static BLOCK_SIGURG: AtomicBool = AtomicBool::new(false);
+
+/// block SIGURG while a trace record is written (preemption drivers)
+pub fn set_block_sigurg(on: bool) {
+    BLOCK_SIGURG.store(on, Ordering::SeqCst);
+}
+
+struct SigurgBlocked(Option<libc::sigset_t>);
+
+impl SigurgBlocked {
+    fn enter() -> Self {
+        if !BLOCK_SIGURG.load(Ordering::Relaxed) {
+            return SigurgBlocked(None);
+        }
+        unsafe {
+            let mut set: libc::sigset_t = std::mem::zeroed();
+            let mut old: libc::sigset_t = std::mem::zeroed();
+            libc::sigemptyset(&mut set);
+            libc::sigaddset(&mut set, libc::SIGURG);
+            libc::pthread_sigmask(libc::SIG_BLOCK, &set, &mut old);
+            SigurgBlocked(Some(old))
+        }
+    }
+}
+
+impl Drop for SigurgBlocked {
+    fn drop(&mut self) {
+        if let Some(old) = self.0.take() {
+            unsafe {
+                libc::pthread_sigmask(libc::SIG_SETMASK, &old, std::ptr::null_mut());
+            }
+        }
+    }
+}
 
 /// flush after every record (used by isolated children, which may be killed at any time)
 pub fn set_autoflush(on: bool) {
